@@ -10,7 +10,8 @@ import fw
 import tool
 import wire
 
-THEOREMS = []
+THEOREMS = ["TLX.Props.C07.out_ts_from_carrier", "TLX.Props.C07.handshake_ts_first", "TLX.Props.C07.data_is_records",
+            "TLX.Props.C05.metadata_is_overlap"]
 
 
 def one(job):
@@ -142,6 +143,10 @@ def run(ctx):
                 "unrelated traffic), with and without -m. Every exported packet is traced back to its origin. non-trivial "
                 "iff some record spans ≥ 2 input packets or TLS and QUIC are both present.")
     ctx.assumptions = ["microsecond timestamps: input timestamps are integer µs; the output is read back as integer µs"]
+    ctx.prove(["TLX.Props.C07", "TLX.Props.C05"])
+    ctx.require_theorems(THEOREMS)
+    import c06_model
+    c06_model.run_model(ctx)          # ties TLX.TcpOut (the model the theorems are about) to the real OutputBuilder
     explore(ctx)
     return ctx.finish(search=lambda c: explore(c, scale=2))
 
